@@ -405,6 +405,7 @@ impl<T: FromUp> Stream for SUp<T> {
         match g.as_ref().map(|u| u.hint.as_str()).unwrap_or("exact") {
             "none" => (0, None),
             "loose" => (r / 2, Some(r + 2)),
+            "lower" => (r, None),
             _ => (r, Some(r)),
         }
     }
